@@ -266,7 +266,20 @@ class Env:
         keys = set()
         for o in live:
             keys |= o.vars.keys()
-        self.vars = {k: alt(*[o.vars[k] for o in live if k in o.vars]) for k in keys}
+        def default(o, k):
+            # an attribute path that was not assigned on this branch keeps its
+            # previous (symbolic) value
+            if '.' not in k:
+                return None
+            root, *attrs = k.split('.')
+            base = o.lookup(root)
+            if base is None:
+                return None
+            for a in attrs:
+                base = ('attr', base, a)
+            return base
+
+        self.vars = {k: alt(*[(o.vars[k] if k in o.vars else default(o, k)) for o in live]) for k in keys}
         self.dead = False
 
 
